@@ -44,6 +44,8 @@ class DeepCopy (F : Facts15) : Prop where
   deep : F.colCopy = .deep
   /-- ... and that `customize(prot=p)` merges the keywords into a copy of the protocol's `type_attrs` -/
   protCopied : F.protCopy = .copied
+  /-- ... and that only class statements register with the class they extend -/
+  subsClasses : F.subsRule = .classStatementsOnly
 
 theorem Good.pure {α : Type} (a : α) : Good n na T (Pure.pure a : M α) (fun x => x = a) := by
   intro h _ _
